@@ -20,6 +20,11 @@ Definition run_C15 (c : sexp) : sexp :=
            let qs := to_query_string m in
            Lst [sbytes qs; s_pmap (parse_search_params (47%N :: qs))]
   | 4%Z => s_pmap (route_params (as_pairs arg))
-  | 5%Z => s_pmap (params_including_parents (map as_pairs (as_list arg)))
+  | 5%Z => (* nested routes "/:a" > ":b" matched against "/<raw_a>/<raw_b>" *)
+           (* NestedMatch.params of the parent also carries the child's params
+              (matching/nested/mod.rs: params.extend(inner_params)) *)
+           let a := ([97%N], as_bytes (nth_s 0 arg)) in
+           let b := ([98%N], as_bytes (nth_s 1 arg)) in
+           s_pmap (params_including_parents [[a; b]; [b]])
   | _ => Lst []
   end.
